@@ -7,7 +7,7 @@ EXPLANATION = ('Value-flow normal forms of ChainTracker::{new,step,stats}, Multi
                'sm2 = (mean_sq - mean^2) n/(n-1); collect_rhat = sqrt(var/W), W = mean_j sm2_j, var = (n-1)/n W + sum_j (mean_j - mean)^2/(m-1) with m the NUMBER '
                'OF CHAINS; MultiChainTracker::rhat the same form (B = n/(m-1) sum, var = (n-1)/n W + B/n); acceptance EMA p := (1-a) p + a [x != last], a = 1/100, '
                'indicator in {0,1}, initial value in [0,1] (negative sentinel replaced by the first indicator), last_state := x.')
-FLOORS = {'obligations': 40}   # counted on the reference tree; fewer instantiated obligations is reported, never passed silently
+FLOORS = {'obligations': 48}   # counted on the reference tree; fewer instantiated obligations is reported, never passed silently
 TECHNIQUE = 'value-flow normal form vs specification table; sibling agreement; fold (loop) summary for the EMA'
 HUND = T.div(T.ONE, N(100))
 
@@ -58,6 +58,14 @@ def tracker_step(ctx, pfx, A, b, shape_term, sentinel):
 
 def run(ctx):
     from .. import frame
+    for adt, budgets in (('stats::ChainTracker', {'new': 1, 'step': 1, 'stats': 0}), ('stats::MultiChainTracker', {'new': 0, 'step': 1, 'rhat': 0, 'max_rhat': 0})):
+        for nm, k in budgets.items():
+            root = ctx.anchor(adt + '::' + nm, name=nm, self_head=adt, container='inherent')
+            if root is not None:
+                narrowing_budget(ctx, 'C13', adt.split('::')[-1] + '::' + nm, [root], {'narrow': k}, why='the trackers work in f32 by design: exactly one element-wise to_f32 of the incoming state; a conversion to a fixed narrower float type (or an f64 -> element-type read-back) on this path changes values for wider element types / back ends', sp=root['sp'])
+    _cr = ctx.anchor('cr', path='stats::collect_rhat')
+    if _cr is not None:
+        narrowing_budget(ctx, 'C13', 'stats::collect_rhat', [_cr], {}, why='a conversion to a fixed narrower float type (or an f64 -> element-type read-back) on this path changes values for wider element types / back ends', sp=_cr['sp'])
     frame.std_impls_derived(ctx, 'C13', ['stats::ChainTracker', 'stats::ChainStats', 'stats::MultiChainTracker', 'stats::RunStats', 'stats::BasicStats'])
     for adt in ('stats::ChainTracker', 'stats::MultiChainTracker'):
         tab = {f: {adt + '::new'} for f in ('n_params', 'n_chains')}
